@@ -101,7 +101,26 @@ let eval_v v inp =
     hex text ^ " " ^ enc_patches (M.x_read_git v text)
   | _ -> "?"
 
-let eval inp = match words inp with ("V" | "W") :: _ -> "ok" | _ -> eval_v M.pinned inp
+(* ---- timestamps (Z lines) ----
+   The Coq theorems take timestamps as opaque tokens with the hypothesis parse (format t) = Some t.
+   This is the statement of WHICH real time.Time values satisfy it with the default TimeFormat
+   "2006-01-02 15:04:05.999999 -0700", validated against the Go runtime on every run: an instant
+   [sec,nsec] shown in a fixed zone [off] seconds east of UTC comes back as the same instant (at
+   microsecond precision: the layout has six fractional digits, further digits are cut) with the
+   same zone offset  iff  its local year is in 0..9999 (four digits, no sign), the offset is a
+   whole number of minutes (the layout has no seconds field for the zone) and below 25 hours in
+   magnitude (time.Parse rejects larger hour fields).  The zero time is never written. *)
+let year0 = -62167219200 and year10000 = 253402300800 and zero_sec = -62135596800
+let stamp_domain sec off =
+  let local = sec + off in
+  local >= year0 && local < year10000 && off mod 60 = 0 && abs off < 90000
+let eval_z sec nsec off =
+  if sec = zero_sec && nsec = 0 then "zero" else if stamp_domain sec off then "same" else "lost"
+
+let eval inp = match words inp with
+  | ("V" | "W") :: _ -> "ok"
+  | ["Z"; s; n; o] -> eval_z (int_of_string s) (int_of_string n) (int_of_string o)
+  | _ -> eval_v M.pinned inp
 
 (* ---- the property on the implementation's output ---- *)
 let only_f5 = { M.uspan_omitted_count_zero = false; M.uspan_empty_names_next_line = true }
@@ -150,11 +169,18 @@ let spec_d inp out =
         Some (reason ^ (if known then " known=F5" else "")))
   | _ -> Some "bad output syntax"
 
+(* [f true] is the applier of the theorems (the new-file numbers must be where the new lines
+   land); when it refuses, [f false] (those numbers ignored, as GNU patch does) refines the message *)
 let apply_check name f l r text =
-  match f l (unhex text) with
+  match f true l (unhex text) with
   | Some got when got = r -> None
   | Some got -> Some (name ^ " rendering applied to Left gives " ^ hexs got ^ ", not Right")
-  | None -> Some (name ^ " rendering does not apply to Left (strict reading of the format)")
+  | None ->
+    match f false l (unhex text) with
+    | Some got when got = r ->
+      Some (name ^ " rendering turns Left into Right only when its new-file line numbers are ignored: a right-hand range is not where the new lines land")
+    | Some got -> Some (name ^ " rendering placed by its left-hand ranges alone gives " ^ hexs got ^ ", not Right; read strictly it does not apply")
+    | None -> Some (name ^ " rendering does not apply to Left (strict reading of the format)")
 
 let spec_a inp out =
   match words inp, words out with
@@ -175,7 +201,7 @@ let spec_a inp out =
        let fi = dec_fi fis and cs = dec_chunks css in
        let known =
          M.gen_facts_pinned && eval inp = out &&
-         M.x_apply_unified l (M.x_unified only_f6 fi cs) = Some r in
+         M.x_apply_unified true l (M.x_unified only_f6 fi cs) = Some r in
        Some (reason ^ (if known then " known=F6" else "")))
   | _ -> Some "bad output syntax"
 
@@ -221,6 +247,7 @@ let well_formed inp =
     | ["T"; _; t] -> ignore (unhex t); true
     | ["V"; _; l; r; t] -> ignore (unhexs l); ignore (unhexs r); ignore (unhex t); true
     | ["W"; l; r; cs; _; _; _] -> ignore (unhexs l); ignore (unhexs r); ignore (dec_chunks cs); true
+    | ["Z"; s; n; o] -> ignore (int_of_string s); ignore (int_of_string o); let n = int_of_string n in n >= 0 && n < 1000000000
     | _ -> false)
   with _ -> false
 
@@ -232,8 +259,8 @@ let spec_v inp =
   | ["V"; m; ls; rs; t] ->
     let l = unhexs ls and r = unhexs rs in
     let f = match m with "n" -> M.x_apply_normal | "u" -> M.x_apply_unified | _ -> M.x_apply_context in
-    if f l (unhex t) = Some r then None
-    else Some ("HARNESS-FAULT: reference applier (" ^ m ^ ") does not turn Left into Right with GNU diff's own output")
+    if f true l (unhex t) = Some r then None
+    else Some ("HARNESS-FAULT: reference applier (" ^ m ^ ", strict) does not turn Left into Right with GNU diff's own output")
   | ["W"; ls; _rs; css; pn; pu; pc] ->
     let l = unhexs ls and cs = dec_chunks css in
     let join ls = List.concat (List.map (fun x -> x @ [n_of_int 10]) ls) in
@@ -242,9 +269,10 @@ let spec_v inp =
       | Some x when got = "x" || unhex got <> join x ->
         Some ("HARNESS-FAULT: the strict " ^ name ^ " applier accepts mdiff's rendering and gives " ^ hexs x ^ " but GNU patch " ^ (if got = "x" then "rejects it" else "gives " ^ got))
       | _ -> None in
-    (match one "normal" (M.x_apply_normal l (M.x_normal cs)) pn with Some e -> Some e | None ->
-     match one "unified" (M.x_apply_unified l (M.x_unified M.pinned None cs)) pu with Some e -> Some e | None ->
-     one "context" (M.x_apply_context l (M.x_context None cs)) pc)
+    (match one "normal" (M.x_apply_normal true l (M.x_normal cs)) pn with Some e -> Some e | None ->
+     match one "unified" (M.x_apply_unified true l (M.x_unified M.pinned None cs)) pu with Some e -> Some e | None ->
+     match one "unified (new-file numbers ignored)" (M.x_apply_unified false l (M.x_unified M.pinned None cs)) pu with Some e -> Some e | None ->
+     one "context" (M.x_apply_context true l (M.x_context None cs)) pc)
   | _ -> None
 
 let spec prop inp out =
@@ -254,6 +282,13 @@ let spec prop inp out =
   | "D" :: _ -> spec_d inp out
   | "A" :: _ -> spec_a inp out
   | "G" :: _ -> spec_g inp out
+  | ["Z"; s; n; o] ->
+    (* the property: default-format timestamps survive (for the times the layout can express) *)
+    let s = int_of_string s and n = int_of_string n and o = int_of_string o in
+    if s = zero_sec && n = 0 then None
+    else if stamp_domain s o && out <> "same" then
+      Some "a timestamp the default TimeFormat can express (year 0..9999, zone offset in whole minutes) does not survive Unified -> ReadUnified/ReadGitPatch"
+    else None
   | _ -> None)
 
 let () = at_exit (fun () -> Hashtbl.iter (fun id k -> Printf.printf "KNOWNCOUNT %s %d\n" id k) known_seen)
